@@ -241,7 +241,7 @@ fn vk_c07_logical_short_circuit() {
     std::mem::forget(res); std::mem::forget(l); std::mem::forget(r);
 }
 
-//@proof {'props': ['C07', 'C01'], 'tier': 'quick', 'timeout': 900, 'uses': ['binop'], 'bounds': 'base any i64, exponent any i64 <= 2', 'desc': '** : a negative exponent is an error; exponents 0,1,2 give 1, a, a*a (wrapping)'}
+//@proof {'props': ['C07', 'C01'], 'tier': 'thorough', 'timeout': 2400, 'uses': ['binop'], 'bounds': 'base any i64, exponent any i64 <= 2', 'desc': '** : a negative exponent is an error; exponents 0,1,2 give 1, a, a*a (wrapping)'}
 #[kani::proof]
 #[kani::unwind(4)]
 fn vk_c07_pow_small_exponent() {
